@@ -415,7 +415,7 @@ def check_value(sb, v, ty, bits, seen_all):
             for v0, o0 in seen:
                 s0 = TOL * max(abs(o0), abs(out)) if sb.log else 0.0
                 if (v0 <= v and o0 > out + s0) or (v0 >= v and o0 + s0 < out):
-                    return "monotone: slot value %r -> %r but %r -> %r (gain %r)" % (v0, o0, v, out, sb.egain)
+                    return "monotone: slot value %r -> %r but %r -> %r (gain %r, declared minimum %r)" % (v0, o0, v, out, sb.egain, lo)
         seen.append((v, out))
         if len(seen) > 12:
             seen.pop(0)
@@ -513,7 +513,7 @@ def canon(case, line):
     return re.sub(r"1/f/[\dNa]+/[\dNa]+/1/([\dNa]+)/([\dNa]+)/[\dNa]+/[\dNa]+", r"1/f/~/~/1/\1/\2/~/~", line)
 
 DL = re.compile(r"^default-linear: slot value (\S+) gives (\S+), expected \S+ \(operation \d+, /(\w+)\)$")
-MONO = re.compile(r"^monotone: slot value (\S+) -> \S+ but (\S+) -> ")
+MONO = re.compile(r"^monotone: slot value (\S+) -> (\S+) but (\S+) -> (\S+) \(gain \S+ declared minimum (\S+)\)( \(operation \d+, /\w+\))?$")
 
 def classify(case, impl, failure):
     """default-points-inexact: the default linear map is missed on a linear parameter whose
@@ -543,10 +543,16 @@ def classify(case, impl, failure):
     m = MONO.match(failure)
     if m:
         try:
-            v0, v = float(m.group(1)), float(m.group(2))
+            v0, o0, v, o, lo = (float(m.group(i)) for i in range(1, 6))
         except ValueError:
             return None
-        return "infinite-slot-value" if math.isinf(v0) or math.isinf(v) else None
+        # the signature of the finding: what was emitted FOR the infinite slot value is the declared
+        # minimum (NaN through the clamp); an infinite slot value with any other output is not the class
+        if math.isinf(v0) and o0 == lo:
+            return "infinite-slot-value"
+        if math.isinf(v) and o == lo:
+            return "infinite-slot-value"
+        return None
     return None
 
 def minimise(case, impl, failure, run):
